@@ -142,6 +142,13 @@ class StripWhitespaceFilter:
             for token in stmt.flatten():
                 if token.is_whitespace and last_was_ws:
                     token.value = ''
+                elif token.is_keyword or token.ttype in (
+                        T.Name.Builtin, T.Operator.Comparison):
+                    # the words of ORDER BY, NOT LIKE, DOUBLE PRECISION, ...
+                    # are one token; AT TIME ZONE '..' ends in a literal
+                    head, quote, literal = token.value.partition("'")
+                    token.value = ' '.join(head.split()) + (
+                        ' ' + quote + literal if quote else '')
                 last_was_ws = (token.is_whitespace
                                or token.match(T.Punctuation, '('))
             while stmt.tokens and stmt.tokens[-1].is_whitespace:
